@@ -163,6 +163,11 @@ func c33Store(in core.Sexp) string {
 		return "(err tmp)"
 	}
 	store := models.NewStore(lc)
+	// prior store content (`store_roundtrip` holds for every prior content): an older, longer
+	// version of the same namespace is saved first, so that the save under test overwrites it
+	if prior := c33BuildNamespace(name, enc, append(c33Creds(in.Nth(6)), c33Cred{"prior_user_with_a_long_name", strings.Repeat("p", 300)}), c33Creds(in.Nth(7))); prior.Verify() == nil && prior.Encrypt(key) == nil {
+		_ = store.UpdateNamespace(prior)
+	}
 	if err := store.UpdateNamespace(ns); err != nil {
 		return "(err update)"
 	}
